@@ -47,6 +47,14 @@ Proof.
   - apply firstn_all2. lia.
 Qed.
 
+Lemma take_firstn l : forall n, take n l = firstn (Z.to_nat n) l.
+Proof.
+  induction l as [|x r IH]; intros n; cbn [take]; [rewrite firstn_nil; reflexivity|].
+  destruct (Z.leb_spec n 0).
+  - replace (Z.to_nat n) with 0%nat by lia. reflexivity.
+  - replace (Z.to_nat n) with (S (Z.to_nat (n - 1))) by lia. cbn [firstn]. rewrite IH. reflexivity.
+Qed.
+
 (* ================================================================== big-endian integers *)
 Ltac Zify.zify_post_hook ::= Z.div_mod_to_equations.
 
@@ -372,7 +380,7 @@ Proof.
 Qed.
 
 Lemma rrun_hdr_complete h rest : length h = 4%nat -> 0 < i32_of_u32 (be_dec h) ->
-  rrun rinit (h ++ rest) = rrun (RBody (Z.to_nat (i32_of_u32 (be_dec h))) []) rest.
+  rrun rinit (h ++ rest) = rrun (RBody (i32_of_u32 (be_dec h)) []) rest.
 Proof.
   intros Hl Hpos.
   destruct h as [|a [|b [|c [|d [|]]]]]; try discriminate Hl.
@@ -389,18 +397,21 @@ Lemma rrun_cons st b r :
 Proof. reflexivity. Qed.
 
 Lemma rrun_body p : forall acc rest, p <> [] ->
-  rrun (RBody (length p) acc) (p ++ rest) =
+  rrun (RBody (len p) acc) (p ++ rest) =
   let '(st1, o1) := finish_payload (acc ++ p) in
   let '(st2, o2) := rrun st1 rest in (st2, o1 ++ o2).
 Proof.
   induction p as [|x p IH]; intros acc rest Hne; [congruence|].
   destruct p as [|y q].
-  - cbn [length app]. rewrite rrun_cons. cbn [rstep]. reflexivity.
+  - cbn [app]. rewrite rrun_cons. cbn [rstep]. change (len [x]) with 1. cbn [Z.leb Z.compare Pos.compare Pos.compare_cont]. reflexivity.
   - specialize (IH (acc ++ [x]) rest ltac:(discriminate)).
-    change (length (x :: y :: q)) with (S (length (y :: q))).
     change ((x :: y :: q) ++ rest) with (x :: ((y :: q) ++ rest)).
-    rewrite rrun_cons. change (rstep (RBody (S (length (y :: q))) acc) x) with (RBody (length (y :: q)) (acc ++ [x]), @nil (Z * bytes)).
-    cbv beta iota. rewrite IH. rewrite <- app_assoc. cbn [app].
+    rewrite rrun_cons. cbn [rstep].
+    assert (Hl : len (x :: y :: q) = len (y :: q) + 1) by (unfold len; cbn [length]; lia).
+    pose proof (len_nonneg q) as Hq. assert (Hl2 : len (y :: q) = len q + 1) by (unfold len; cbn [length]; lia).
+    destruct (Z.leb_spec (len (x :: y :: q)) 1); [lia|].
+    replace (len (x :: y :: q) - 1) with (len (y :: q)) by lia.
+    rewrite IH. rewrite <- app_assoc. cbn [app].
     destruct (finish_payload (acc ++ x :: y :: q)) as [s1 o1]. destruct (rrun s1 rest). reflexivity.
 Qed.
 
@@ -423,7 +434,7 @@ Proof.
   rewrite <- app_assoc.
   rewrite rrun_hdr_complete; [|unfold H4; apply be_enc_length|rewrite Hsz; lia].
   rewrite Hsz.
-  assert (Hpl : Z.to_nat (len d + 4) = length (T4 ++ d))
+  assert (Hpl : len d + 4 = len (T4 ++ d))
     by (unfold len, T4; rewrite app_length, be_enc_length; lia).
   rewrite Hpl. rewrite <- app_assoc. rewrite (app_assoc T4 d rest).
   rewrite rrun_body
@@ -825,6 +836,7 @@ Theorem http_mpub_text_spec max_msg max_body cl body : 0 <= max_body -> cl <= ma
   end.
 Proof.
   intros H0 Hcl. unfold http_mpub_text. destruct (Z.gtb_spec cl max_body); [lia|].
+  rewrite take_firstn.
   set (n := Z.to_nat (max_body + 1)). set (data := firstn n body).
   assert (Hd : len data <= max_body + 1) by (unfold len, data; pose proof (firstn_le_length n body); lia).
   pose proof (text_loop_spec max_msg (max_body + 1) (S (length data)) 0 data ltac:(lia) ltac:(lia)) as SP.
@@ -882,6 +894,7 @@ Theorem http_pub_spec max_msg cl body : 0 <= max_msg -> cl <= max_msg ->
     else if len body =? 0 then HErr H_MSG_EMPTY else HOk [body].
 Proof.
   intros H0 Hcl. unfold http_pub. destruct (Z.gtb_spec cl max_msg); [lia|].
+  rewrite take_firstn.
   set (n := Z.to_nat (max_msg + 1)).
   pose proof (firstn_le_length n body) as Hle.
   destruct (Z.ltb_spec max_msg (len body)) as [Hbig|Hfit].
